@@ -20,14 +20,12 @@ REPO = os.path.abspath(os.environ.get("VERIF_REPO", "/repo"))
 # touching /repo) gets its own cache directory so that it never mixes with the cache of /repo
 CACHE = os.path.join(VERIF, ".cache") if REPO == "/repo" else os.path.join(VERIF, ".cache", "alt-" + hashlib.sha1(REPO.encode()).hexdigest()[:10])
 LEANCACHE = os.path.join(VERIF, ".cache")
-if REPO != "/repo":
-    LEAN = os.path.join(CACHE, "lean")
 EVIDENCE = os.path.join(VERIF, "evidence") if REPO == "/repo" else os.path.join(CACHE, "evidence")
 REPLAYS = os.path.join(VERIF, "replays") if REPO == "/repo" else os.path.join(CACHE, "replays")
 # a scratch checkout (VERIF_REPO) gets a private copy of the lake project, because the generated fragments
 # (NanoVerif/Gen/*.lean) are re-translated from that checkout's sources and must not leak into /verif/lean
 LEAN_SRC = os.path.join(VERIF, "lean")
-LEAN = LEAN_SRC
+LEAN = LEAN_SRC if REPO == "/repo" else os.path.join(CACHE, "lean")
 HARNESS = os.path.join(VERIF, "harness")
 GUARD = "NANO_VERIF"
 NCPU = os.cpu_count() or 4
